@@ -520,7 +520,22 @@ Fixpoint materialize (d : nat) (f : fld) (h : heap) {struct f} : option (heap * 
               | DCfgs ts =>
                   (* default=[item(data t) for t in ts]: Config objects built when the schema is written *)
                   match maph (fun h t => match alloc_tree t h with
-                                         | Some (h2, v) => inst true d fi' h2 (Some v)
+                                         | Some (h2, v) =>
+                                             match inst true d fi' h2 (Some v) with
+                                             | Some (h3, VRef cl) =>
+                                                 (* Config(schema, kwargs): the keyword values are stored first *)
+                                                 match lookup h3 cl, t with
+                                                 | Some (OCfg f0 data dynl), ADict kws =>
+                                                     let given := flat_map (fun kt => match fst kt with
+                                                                                      | PStr k => match assoc str_eqb k data with
+                                                                                                  | Some x => [(k, x)] | None => [] end
+                                                                                      | _ => [] end) kws in
+                                                     let rest := filter (fun kv => negb (assoc_mem pyval_eqb (PStr (fst kv)) kws)) data in
+                                                     Some (upd h3 cl (OCfg f0 (given ++ rest) dynl), VRef cl)
+                                                 | _, _ => Some (h3, VRef cl)
+                                                 end
+                                             | r => r
+                                             end
                                          | None => None end) h1 ts with
                   | Some (h2, cfgs) => Some (h2 ++ [OList None cfgs], FList (Some fi') (DVal (VRef (length h2))))
                   | None => None
